@@ -20,7 +20,7 @@ import sys
 from harness import common
 
 PROP = 'C19'
-THEOREMS = ['C19_direct', 'C19_full_if_guard_denies_format', 'C19_refuted_if_not', 'C19_partial',
+THEOREMS = ['C19_direct', 'C19_full_if_guard_denies_format', 'C19_refuted_if_not', 'C19_partial', 'C19_repair',
             'C19_needs_clean_env', 'C19_guard_sound', 'C19_whitelist_documented']
 HEADER = ('From Coq Require Import String List Bool ZArith Ascii.\nRequire Import GT.PyBase GT.ExprSpec.\n'
           'Import ListNotations.\nOpen Scope string_scope.\n'
@@ -660,6 +660,7 @@ def check(tier, seed):
             corpus = [json.loads(l) for l in open(cp) if l.strip()]
         for c in corpus:
             c['stream'] = 'corpus'
+            c.setdefault('env', std_env(1))
         cases = corpus + gen_cases(tier, rng)
         keep, v, rejected = evaluate(run, wd, cases, st, 'main')
         known_hit = {}
